@@ -37,6 +37,7 @@ type c16Case struct {
 	// Repairable: (blob paths) every event blob also holds a failure message with an invalid UTF-8 byte: the blob must
 	// be repaired first and is then checked like any other
 	Repairable bool `json:"repairable,omitempty"`
+	JSONBlobs  bool `json:"json_blobs,omitempty"` // (blob paths) JSON-encoded event blobs
 }
 
 const (
@@ -88,6 +89,9 @@ func c16Run(c c16Case) error {
 		c12AddCompanion(req.ProtoReflect())
 	}
 	vfshared.FillEmptyNamespaces(req.ProtoReflect(), allowedName)
+	if c.JSONBlobs {
+		vfshared.ReencodeBlobsAsJSON(req.ProtoReflect())
+	}
 	// merged paths sharing a oneof or a singular blob overwrite each other: take the truth from the final message
 	probe := &vfshared.RefTranslator{NS: map[string]string{forbiddenName: forbiddenName}}
 	_, _ = probe.Translate(proto.Clone(req).ProtoReflect())
@@ -260,7 +264,7 @@ func c16Classify(st *vfshared.Stats, c c16Case, paths []vfshared.Path) {
 	}
 }
 
-const c16Rule = "every unary request type of both services x every namespace-name path in it (descriptors; through event blobs; failure chains): forbidden name at exactly that path (allowed, non-empty names everywhere else) => PermissionDenied and handler never called; allowed everywhere => handler called once with the (translated) request; x {no translation, translation remote->local, translation + bypass header}; blob paths additionally with a failure message holding invalid UTF-8 in the same batch (the blob is repaired first and then checked) and with an undecodable batch (fail closed); plus random multi-path combinations; non-trivial = forbidden name at depth>=3 or inside a blob, or allowed only because translation ran first; distinct = (method, paths, forbidden flags, translation, bypass, companion)"
+const c16Rule = "every unary request type of both services x every namespace-name path in it (descriptors; through event blobs; failure chains): forbidden name at exactly that path (allowed, non-empty names everywhere else) => PermissionDenied and handler never called; allowed everywhere => handler called once with the (translated) request; x {no translation, translation remote->local, translation + bypass header}; blob paths additionally with a failure message holding invalid UTF-8 in the same batch (the blob is repaired first and then checked), with JSON-encoded blobs and with an undecodable batch (fail closed); plus random multi-path combinations; non-trivial = forbidden name at depth>=3 or inside a blob, or allowed only because translation ran first; distinct = (method, paths, forbidden flags, translation, bypass, companion)"
 
 func TestVF_C16_Paths(t *testing.T) {
 	const part = "paths"
@@ -300,6 +304,14 @@ func TestVF_C16_Paths(t *testing.T) {
 						}
 						c16Classify(st, c, []vfshared.Path{p})
 						n++
+						if viaBlob {
+							cj := c
+							cj.JSONBlobs = true
+							if err := c16Run(cj); err != nil {
+								c16Fail(t, st, part, cj, err)
+							}
+							st.Case(vfshared.Fingerprint(cj), true, "json_encoded_blob")
+						}
 						if viaBlob {
 							cr := c
 							cr.Repairable = true
